@@ -154,9 +154,11 @@ Proof.
     apply Nat.leb_le. exact X.
   - (* deleteAccountLocally, key file: the reg file is gone *)
     destruct (HDD t) as (_ & _ & D3). unfold has_reg. rewrite S11, S1, (D3 m Hpc). reflexivity.
-  - (* DUnlock also sets the attempt counter *)
-    intros t0 Ht0. unfold upd in *. destruct (Nat.eqb_spec t0 t); subst; cbn in *; auto.
-    rewrite Nat.eqb_refl. cbn. exact Ht.
+  (* DUnlock also sets the attempt counter (Unlock failed / succeeded) *)
+  - intros t0 Ht0; unfold upd in *; destruct (Nat.eqb_spec t0 t); subst; cbn in *; auto;
+      rewrite Nat.eqb_refl; cbn; exact Ht.
+  - intros t0 Ht0; unfold upd in *; destruct (Nat.eqb_spec t0 t); subst; cbn in *; auto;
+      rewrite Nat.eqb_refl; cbn; exact Ht.
 Qed.
 
 Lemma triple_eqb_eq a b : triple_eqb a b = true -> a = b.
@@ -253,10 +255,38 @@ Proof.
       eapply idle_step; [exact Es|exact Hi|intros c0 X; try discriminate X; congruence].
 Qed.
 
-Lemma spec_lock_ok evs s f :
-  replay init evs = Some (s, true) -> reachable s -> final_agree s f = true -> spec_lock evs f = true.
+Lemma replay_run evs : forall s s1 b,
+  replay s evs = Some (s1, b) -> run s (map label_of evs) = Some s1.
 Proof.
-  intros Hrep Hr Hf. unfold spec_lock. destruct (all_finished evs f) eqn:Ha; [cbn|reflexivity].
+  induction evs as [|e r IH]; intros s s1 b H; cbn in *.
+  - injection H as <- _. reflexivity.
+  - destruct (step s (label_of e)) as [s2|]; [|discriminate].
+    destruct (replay s2 r) as [[s3 b3]|] eqn:Er; [|discriminate]. injection H as <- _.
+    eapply IH. exact Er.
+Qed.
+
+Lemma replay_no_unlock_fault evs : forall s s1,
+  replay s evs = Some (s1, true) -> no_unlock_fault evs = true ->
+  unlock_faults s (map label_of evs) = 0.
+Proof.
+  induction evs as [|e r IH]; intros s s1 H Hn; cbn in *; [reflexivity|].
+  apply Bool.andb_true_iff in Hn. destruct Hn as [Hn Hn'].
+  destruct (step s (label_of e)) as [s2|] eqn:Es; [|discriminate].
+  destruct (replay s2 r) as [[s3 b3]|] eqn:Er; [|discriminate]. injection H as -> Hb.
+  apply Bool.andb_true_iff in Hb. destruct Hb as [Hok ->].
+  rewrite (IH s2 s1 Er Hn'), Nat.add_0_r.
+  destruct e as [t c|t f k kc v|t|c]; cbn; try reflexivity.
+  destruct f; [|reflexivity].
+  destruct (expected s t true) as [x|] eqn:Ex; [|discriminate]. apply triple_eqb_eq in Hok. subst x.
+  unfold expected in Ex.
+  destruct (pcof s t); try reflexivity; cbv zeta in Ex; injection Ex as <- _ _; discriminate Hn.
+Qed.
+
+Lemma spec_lock_ok evs s f :
+  replay init evs = Some (s, true) -> final_agree s f = true -> spec_lock evs f = true.
+Proof.
+  intros Hrep Hf. unfold spec_lock. destruct (all_finished evs f) eqn:Ha; [cbn|reflexivity].
+  destruct (no_unlock_fault evs) eqn:Hnu; [cbn|reflexivity].
   unfold final_agree in Hf. apply Bool.andb_true_iff in Hf. destruct Hf as [Hf Hl].
   apply Bool.andb_true_iff in Hf. destruct Hf as [_ Hres].
   assert (Hq : forall t, finished (pcof s t) = true).
@@ -266,7 +296,8 @@ Proof.
     all: apply existsb_exists in Ha; destruct Ha as [[t' x] [Hin Ht']]; apply Nat.eqb_eq in Ht'; subst t'.
     all: rewrite forallb_forall in Hres; specialize (Hres _ Hin); destruct x as [lo k]; cbn in Hres.
     all: rewrite Hp in Hres; cbn in Hres; discriminate Hres. }
-  rewrite (lock_free_when_quiescent s Hr Hq) in Hl. destruct (f_lock_free f); [reflexivity|discriminate Hl].
+  rewrite (lock_free_when_quiescent _ s (replay_run _ _ _ _ Hrep) (replay_no_unlock_fault _ _ _ Hrep Hnu) Hq) in Hl.
+  destruct (f_lock_free f); [reflexivity|discriminate Hl].
 Qed.
 
 (** every clause of the monitor — (a) registrations bounded, (b) persisted together, (c) reuse
@@ -282,7 +313,7 @@ Proof.
   pose proof Hf as Hf0.
   unfold final_agree in Hf. apply Bool.andb_true_iff in Hf. destruct Hf as [Hf _].
   apply Bool.andb_true_iff in Hf. destruct Hf as [Hc Hres].
-  unfold spec_hist. rewrite (spec_lock_ok evs s f Hrep Hr Hf0), Bool.andb_true_r.
+  unfold spec_hist. rewrite (spec_lock_ok evs s f Hrep Hf0), Bool.andb_true_r.
   unfold orun. rewrite (sim_oke _ _ Hs), (sim_okd _ _ Hs). cbn.
   eapply spec_cas_ok; eassumption.
 Qed.
